@@ -4,6 +4,8 @@ Writes seeded/TABLE.md and refreshes the copy between the seeded-table markers o
 import json, os, glob, re
 V = os.path.dirname(os.path.dirname(os.path.abspath(__file__)))
 STRENGTH = {
+    'C17_m7': 'first run: fail-closed translator only; nearly dead first (phase-reference) channel: coil 0 scaled to the precision of the k-space dtype (generator share 15 % + two corpus entries)',
+    'C20_m7': 'reported by the existing oracle; since round 7 also by the float correspondence of model/Spokes.v (spoke sets designed twice)',
     'C01_m2': 'per-axis tuple widths / params added to the Interpolate/Gridding leaf generator',
     'C02_m1': 'Add cases whose FIRST term returns a view (Transpose/Reshape/Slice first) added to the tree generator',
     'C02_m2': 'inputs stored in a real dtype (also exposed F20/F21)',
